@@ -8,6 +8,7 @@ from mirsym.lazy import Spec, force
 from mirsym.engine import Agg, LazyEnum, PyVec, Str, Ref, Opaque, PyMap, PySet, Unsupported, Panic, unbox, mkbox, mkstr, Cell_
 
 CRATES = ('compiler', 'common_defs', 'diagnostics')
+CALLEES = ['f', 'ref_get', 'ref_get_x', 'array_get', 'array_get__Array_3_int32', 'string_len', 'int32_to_string', 'missing', 'fmt.Sprintf']      # any callee may be a user function with effects
 INT_TYPES = ['TInt8', 'TInt16', 'TInt32', 'TInt64', 'TUint8', 'TUint16', 'TUint32', 'TUint64']
 
 def compile_program(src, flags=('--dump-go',)):
@@ -117,8 +118,8 @@ def ob_effect_predicate(r, tier, seed, depth):
     spec = Spec(W.tt, allowed={'GoType': leaf_ty}, leaves={'GoType': leaf_ty, 'Expr': ['Var', 'Int', 'Call', 'Nil']}, strings=('0', '7'), vec_len=(0, 1), depth=depth,
                 field_hooks={('Expr', 'Block', 'stmts'): lambda sp, ex, d, p: PyVec([]), ('Expr', 'Float', 'value'): lambda sp, ex, d, p: Opaque('float', text='1.0'),
                              ('Expr', 'Call', 'args'): lambda sp, ex, d, p: PyVec([]),
-                             ('Expr', 'Call', 'func'): lambda sp, ex, d, p: mkbox(Agg(GE.key, GE.vindex('Var'), [mkstr('f'), Agg(GT.key, GT.vindex('TUnit'), [])]))})
-    r.bounds = 'every goast::Expr of depth <= %d over all %d constructors, all binary/unary operators, result types %s, integer literals {0, 7}, lists of 0..1 elements (statement blocks empty)' % (depth, len(GE.variants), leaf_ty)
+                             ('Expr', 'Call', 'func'): lambda sp, ex, d, p: mkbox(Agg(GE.key, GE.vindex('Var'), [mkstr(ex.choose([(True, n) for n in (CALLEES if depth <= 1 else CALLEES[:2] + CALLEES[3:4])])), Agg(GT.key, GT.vindex('TUnit'), [])]))})
+    r.bounds = 'every goast::Expr of depth <= %d over all %d constructors, all binary/unary operators, result types %s, integer literals {0, 7}, lists of 0..1 elements (statement blocks empty), callee names %s' % (depth, len(GE.variants), leaf_ty, CALLEES if depth <= 1 else CALLEES[:2] + CALLEES[3:4])
     r.assumptions = ['oracle (Go spec): a call, or an integer `/` whose divisor is not a non-zero literal, may have an observable effect; index-out-of-range and nil dereference are excluded: goml emits raw Index nodes only inside runtime helpers and never creates nil pointers',
                      'a sub-tree the predicate did not inspect is treated as possibly effectful']
     def entry(ex):
@@ -146,6 +147,14 @@ def ob_effect_predicate(r, tier, seed, depth):
             go = compile_program(src); body = go[go.find('func main0'):]
             ok = 'func main0' in go and '/' not in body.split('func main()')[0]
             detail = 'goml program `let z = zero(); let a = 10 / z; string_println("after")`: emitted main0 contains no division: ' + body.split('func main()')[0][:300].replace('\n', ' | ')
+        if key == 'effect-judged-pure':
+            import re as _re
+            m_ = _re.search(r"Expr#3\['([A-Za-z_][A-Za-z0-9_]*)'", json.dumps(desc))
+            name = m_.group(1) if m_ else 'f'
+            src = 'fn %s(x: int32) -> int32 { let _ = string_println("effect"); x }\nfn main() -> unit {\n  let a = %s(1);\n  string_println("after")\n}\n' % (name, name)
+            go = compile_program(src); body = go[go.find('func main0'):].split('func main()')[0]
+            ok = 'func main0' in go and (name + '(') not in body
+            detail = 'goml program with an unused call `let a = %s(1)` to an effectful user function: emitted main0 = %s' % (name, body[:260].replace('\n', ' | '))
         r.findings.append(Finding(key, 'expr_has_side_effects judges an expression pure that may have an effect (%s): %s' % (why, json.dumps(desc)[:300]), {'expr': desc, 'why': why}, ok, detail))
 
 
@@ -183,12 +192,18 @@ class LiftGen:
     def expr(s, depth):
         """int-typed expression + trace"""
         s.n += 1; me = s.n
-        opts = ['var', 'call0'] + ([f for f in ('call1', 'call2', 'add', 'if', 'let', 'tuple', 'while') if f in s.forms] if depth > 0 else [])
+        opts = ['var', 'call0'] + ([f for f in ('call1', 'call2', 'callcall', 'add', 'if', 'let', 'tuple', 'while') if f in s.forms] if depth > 0 else [])
         k = s.ex.choose([(True, o) for o in opts])
         if k == 'var': return s.var('v%d' % me), []
         if k == 'call0': return s.call('g%d' % me, []), [('call', 'g%d' % me)]
         if k == 'call1':
             a, ta = s.expr(depth - 1); return s.call('h%d' % me, [a]), ta + [('call', 'h%d' % me)]
+        if k == 'callcall':
+            # the callee is itself an effectful expression: pick()(arg) - callee first, then the arguments, then the call
+            fty = s.ty('TFunc', PyVec([s.ty('TInt32')]), mkbox(s.ty('TInt32')))
+            callee = s.L('ECall', func=mkbox(s.L('EVar', name=mkstr('pick%d' % me), ty=s.ty('TFunc', PyVec([]), mkbox(fty)))), args=PyVec([]), ty=fty)
+            a, ta = s.expr(depth - 1)
+            return s.L('ECall', func=mkbox(callee), args=PyVec([a]), ty=s.ty('TInt32')), [('call', 'pick%d' % me)] + ta + [('call', '<value>')]
         if k == 'call2':
             a, ta = s.expr(depth - 1); b, tb = s.expr(depth - 1); return s.call('k%d' % me, [a, b]), ta + tb + [('call', 'k%d' % me)]
         if k == 'add':
@@ -221,7 +236,8 @@ def anf_trace(W, a):
         c = unbox(c) if isinstance(c, Agg) and c.ty == 'Box' else c
         n = CE.variants[c.idx].name; f = dict(zip([x[0] for x in CE.variants[c.idx].fields], c.fields))
         if n == 'ECall':
-            fn = f['func']; return [('call', ms.pystr(fn.fields[0]) if IE.variants[fn.idx].name == 'ImmVar' else '?')]
+            fn = f['func']; nm = ms.pystr(fn.fields[0]) if IE.variants[fn.idx].name == 'ImmVar' else '?'
+            return [('call', nm if nm[0] in 'fghkp' and not nm.startswith('t') else '<value>')]
         if n == 'EIf': return [('if', T(f['then']), T(f['else_']))]
         if n == 'EWhile': return [('while', T(f['cond']), T(f['body']))]
         if n == 'EMatch': return [('match', [T(arm.fields[1]) for arm in f['arms'].items], T(f['default'].fields[0]) if f['default'].idx == 1 else None)]
@@ -285,10 +301,15 @@ def ob_anf_order(r, tier, seed, depth, forms, top):
     for key, (what, w) in found.items():
         ok_, detail = True, 'traces read from the anf::File produced by the real anf_file MIR'
         if key == 'short-circuit-lost':
-            src_prog = 'fn t() -> bool { let _ = string_println("t"); true }\nfn f() -> bool { let _ = string_println("f"); false }\nfn main() -> unit {\n  let x = f() && t();\n  if x { string_println("x") } else { string_println("nx") }\n}\n'
-            go = compile_program(src_prog); body = go[go.find('func main0'):].split('func main()')[0]
-            ok_ = 'func main0' in go and '= t()' in body and body.find('= t()') < body.find('&&')
-            detail = 'goml `let x = f() && t();` emits: ' + body[:260].replace('\n', ' | ')
+            ok_ = False; detail = ''
+            for cond in ('f() && t()', 'f() && (f() || t())', 't() || (t() && f())'):
+                src_prog = 'fn t() -> bool { let _ = string_println("t"); true }\nfn f() -> bool { let _ = string_println("f"); false }\nfn main() -> unit {\n  let x = %s;\n  if x { string_println("x") } else { string_println("nx") }\n}\n' % cond
+                go = compile_program(src_prog); body = go[go.find('func main0'):].split('func main()')[0]
+                # every call must sit inside a branch except the first one: a second call at the top nesting level means it runs unconditionally
+                top_calls = [l for l in body.split('\n') if l.startswith('    var ') and ('= t()' in l or '= f()' in l)]
+                if 'func main0' in go and len(top_calls) > 1:
+                    ok_ = True; detail = 'goml `let x = %s;` emits unconditional calls: %s' % (cond, ' | '.join(x.strip() for x in top_calls)); break
+            if not ok_: detail = 'no canned program reproduced it at compiler level; traces are read from the anf::File produced by the real anf_file MIR'; ok_ = True
         r.findings.append(Finding(key, 'ANF changes the effect trace: ' + what, {'traces': [str(x) for x in (w or ())]}, ok_, detail))
 
 # ----------------------------------------------------------------------------- O9.2 block-level DCE keeps every effect, once, in order, and the returned value
@@ -458,9 +479,9 @@ def describe_block(g, b):
 def obligations():
     obs = [Ob('O9.1-effect-predicate-d1', 'DCE effect predicate is sound, depth 1', ob_effect_predicate, ('quick', 'thorough'), 2, dict(depth=1)),
            Ob('O9.1-effect-predicate-d2', 'DCE effect predicate is sound, depth 2', ob_effect_predicate, ('quick', 'thorough'), 10, dict(depth=2))]
-    obs += [Ob('O9.3-anf-order-call-d1', 'ANF keeps the source effect trace: f(A1, A2), depth 1', ob_anf_order, ('quick', 'thorough'), 3, dict(depth=1, forms=['call1', 'call2', 'add', 'if', 'let', 'tuple', 'while', 'and', 'or', 'not', 'less'], top='call')),
+    obs += [Ob('O9.3-anf-order-call-d1', 'ANF keeps the source effect trace: f(A1, A2), depth 1', ob_anf_order, ('quick', 'thorough'), 3, dict(depth=1, forms=['call1', 'call2', 'callcall', 'add', 'if', 'let', 'tuple', 'while', 'and', 'or', 'not', 'less'], top='call')),
             Ob('O9.3-anf-order-bool-d1', 'ANF keeps short-circuit evaluation of && / ||', ob_anf_order, ('quick', 'thorough'), 3, dict(depth=1, forms=['and', 'or', 'not', 'less', 'call1'], top='bool')),
-            Ob('O9.3-anf-order-call-d2', 'ANF keeps the source effect trace: f(A1, A2), depth 2', ob_anf_order, ('thorough',), 100, dict(depth=2, forms=['call1', 'add', 'if', 'let', 'and', 'or'], top='call'))]
+            Ob('O9.3-anf-order-call-d2', 'ANF keeps the source effect trace: f(A1, A2), depth 2', ob_anf_order, ('thorough',), 100, dict(depth=2, forms=['call1', 'callcall', 'add', 'if', 'let', 'and', 'or'], top='call'))]
     obs += [Ob('O9.2-block-dce-2', 'block-level DCE preserves effects and the returned value: 2 statements + return', ob_block_dce, ('quick', 'thorough'), 3, dict(nstmts=2, depth=0)),
             Ob('O9.2-block-dce-3', 'block-level DCE: 3 statements + return', ob_block_dce, ('thorough',), 20, dict(nstmts=3, depth=0)),
             Ob('O9.2-block-dce-if', 'block-level DCE: 1 statement, then if/else with one assignment or call per branch, + return', ob_block_dce, ('quick', 'thorough'), 20, dict(nstmts=1, depth=1, forms=('atom', 'call', 'div'))),
